@@ -175,13 +175,16 @@ pub fn gen_graph(rng: &mut SplitMix, thorough: bool) -> GraphSpec {
         return g;
     }
     loop {
-        let cfg = GraphGenCfg {
-            max_v: 6,
-            max_e: if thorough { 9 } else { 7 },
-            min_e: 1,
-            max_loops: 9,
-            allow_disconnected: rng.chance(1, 5),
+        // mostly small graphs; one run in eight a larger one (cheap as long as there
+        // are few vertices: the builder's cost explodes with BFS depth, not with E)
+        let big = rng.chance(1, 8);
+        let (min_e, max_e) = match (thorough, big) {
+            (false, false) => (1, 7),
+            (false, true) => (8, 10),
+            (true, false) => (1, 9),
+            (true, true) => (10, 12),
         };
+        let cfg = GraphGenCfg { max_v: 6, max_e, min_e, max_loops: 99, allow_disconnected: rng.chance(1, 5) };
         let (edges, ext) = workload::random_topology(rng, &cfg);
         if workload::edge_bfs_rounds(&edges) > 5 {
             continue;
@@ -193,6 +196,7 @@ pub fn gen_graph(rng: &mut SplitMix, thorough: bool) -> GraphSpec {
         let delta = *rng.pick(&[0.125, 0.25, 0.5, 1.0, 0.3, 2.0, -0.25]);
         let w_uniform = ((d as f64 * l as f64 / 2.0 + delta) / ne as f64).max(0.05);
         let massive_mode = rng.below(4);
+        let tiny_mode = rng.chance(1, 12);
         let mut es: Vec<EdgeSpec> = edges
             .iter()
             .map(|&(a, b)| {
@@ -206,6 +210,12 @@ pub fn gen_graph(rng: &mut SplitMix, thorough: bool) -> GraphSpec {
                     1 => (w_uniform * *rng.pick(&[1.0, 1.0, 1.25, 0.875, 1.5, 0.5])).max(0.05),
                     2 => *rng.pick(WEIGHT_MENU),
                     _ => (w_uniform + *rng.pick(&[0.0, 0.0, 0.1, -0.1, 0.3])).max(0.05),
+                };
+                // occasionally a very small (but positive, finite) weight: huge J values
+                let w = if tiny_mode && rng.chance(1, 2) {
+                    *rng.pick(&[1e-6, 9.5367431640625e-7, 3e-5, 2.44140625e-4])
+                } else {
+                    w
                 };
                 EdgeSpec { v: (a, b), massive, w: w.to_bits() }
             })
@@ -412,7 +422,7 @@ fn judge_graph_in(
         let mut vr = SplitMix::new(mix(keys.0, 0x7a71));
         for _ in 0..variants {
             let mut v = spec.clone();
-            match vr.below(4) {
+            match vr.below(5) {
                 0 => {
                     // other externals over the same vertices
                     let mut verts: Vec<u8> = v.edges.iter().flat_map(|e| [e.v.0, e.v.1]).collect();
@@ -424,10 +434,17 @@ fn judge_graph_in(
                     let i = vr.below(v.edges.len() as u64) as usize;
                     v.edges[i].massive = !v.edges[i].massive;
                 }
-                2 => {
+                2 | 3 => {
                     let i = vr.below(v.edges.len() as u64) as usize;
-                    let w = f64::from_bits(v.edges[i].w) * *vr.pick(&[0.5, 0.75, 1.5, 2.0]);
-                    v.edges[i].w = w.clamp(0.05, 20.0).to_bits();
+                    if vr.chance(1, 2) {
+                        // the same weight up to a few units in the last place
+                        let b = v.edges[i].w;
+                        let k = vr.range(1, 8);
+                        v.edges[i].w = if vr.chance(1, 2) { b + k } else { b - k };
+                    } else {
+                        let w = f64::from_bits(v.edges[i].w) * *vr.pick(&[0.5, 0.75, 1.5, 2.0]);
+                        v.edges[i].w = w.clamp(1e-7, 20.0).to_bits();
+                    }
                 }
                 _ => {
                     if !v.externals.is_empty() {
